@@ -215,7 +215,7 @@ impl BinaryDeserializer for char {
 impl BinaryDeserializer for String {
     fn deserialize(context: &mut DeserializationContext<'_>) -> Result<Self> {
         let id = context.read_var_i32()?;
-        let bytes = context.read_bytes(id as usize)?;
+        let bytes = context.read_bytes(id.try_into()?)?;
         Ok(String::from_utf8(bytes.to_vec())?)
     }
 }
@@ -230,7 +230,7 @@ impl BinaryDeserializer for DeduplicatedString {
                 None => Err(Error::InvalidStringId(id)),
             }
         } else {
-            let bytes = context.read_bytes(count_or_id as usize)?;
+            let bytes = context.read_bytes(count_or_id.try_into()?)?;
             let s = String::from_utf8(bytes.to_vec())?;
             context.state_mut().store_string(s.clone());
             Ok(DeduplicatedString(s))
@@ -374,6 +374,7 @@ fn deserialize_iterator<'a, 'b, T: BinaryDeserializer + 'a>(
             context,
             element: PhantomData,
         },
+        Ok(length) if length < 0 => DeserializerIterator::InvalidLength,
         Ok(length) => DeserializerIterator::KnownSize {
             context,
             remaining: length as usize,
@@ -393,6 +394,7 @@ enum DeserializerIterator<'a, 'b, T: BinaryDeserializer + 'a> {
         element: PhantomData<T>,
     },
     InputEndedUnexpectedly,
+    InvalidLength,
 }
 
 impl<'a, 'b, T: BinaryDeserializer + 'a> Iterator for DeserializerIterator<'a, 'b, T> {
@@ -403,6 +405,7 @@ impl<'a, 'b, T: BinaryDeserializer + 'a> Iterator for DeserializerIterator<'a, '
             DeserializerIterator::InputEndedUnexpectedly => {
                 Some(Err(Error::InputEndedUnexpectedly))
             }
+            DeserializerIterator::InvalidLength => Some(Err(Error::LengthTooLarge)),
             DeserializerIterator::KnownSize {
                 ref mut context,
                 remaining,
